@@ -34,6 +34,11 @@ def applyChain (ch : List (Nat × List Nat)) (s : List Nat) : List Nat :=
 def textDefault (isMarkup : Bool) (s : List Nat) : List Nat :=
   if isMarkup then s else applyChain chain s
 
+/-- A sequence of calls of the hook on one renderer object, in order (flag `isMarkup`, string): the method
+    reads nothing but its argument and writes nothing, so each result is the result of that call alone. -/
+def textDefaultSeq (calls : List (Bool × List Nat)) : List (List Nat) :=
+  calls.map fun c => textDefault c.1 c.2
+
 /-! ## processFileContent of PageTemplate -/
 
 /-- decimal digits (code points) of `n` -/
